@@ -42,10 +42,14 @@ type c07Val struct {
 }
 
 type c07Hdr struct {
-	Name     string   `json:"name"`
-	Preserve bool     `json:"preserve,omitempty"`
-	Optional bool     `json:"optional,omitempty"` // documentation leaves open whether the name is configured at all
-	Values   []c07Val `json:"values"`
+	Name     string `json:"name"`
+	Preserve bool   `json:"preserve,omitempty"`
+	Optional bool   `json:"optional,omitempty"` // documentation leaves open whether the name is configured at all
+	// PreserveOpen: the name is configured by two list entries (spellings differing in letter case)
+	// with different preserveRequestValue settings; Preserve then holds the laxer one and the
+	// checks of this header are counted as ambiguous
+	PreserveOpen bool     `json:"preserve_open,omitempty"`
+	Values       []c07Val `json:"values"`
 }
 
 type c07HeaderCfg struct {
@@ -378,8 +382,14 @@ type c07Config struct {
 	Name       string    `json:"name"`
 	Legacy     *c07Flags `json:"legacy_flags,omitempty"`
 	Structured int       `json:"structured,omitempty"` // 1-based index into c07Structured()
-	ref        c07HeaderCfg
-	rejectWhy  string
+	// Alpha: the header lists come from an alpha-config YAML file (c07_alpha_test.go)
+	Alpha *c07AlphaSpec `json:"alpha_config,omitempty"`
+	// Store: "" = cookie session store, "redis" = sessions in Redis, the cookie carries a ticket
+	Store string `json:"session_store,omitempty"`
+	// Refresh: built with --cookie-refresh=1m (the refresh part of c07_alpha_test.go)
+	Refresh   bool `json:"cookie_refresh,omitempty"`
+	ref       c07HeaderCfg
+	rejectWhy string
 }
 
 func c07Configs(quick bool) []*c07Config {
@@ -433,6 +443,18 @@ type c07Env struct {
 	htfile string
 	creds  []*c07Cred
 	issued []map[string]any // token responses the provider issued, in order
+
+	// session store in Redis (c07_alpha_test.go): one server per shard, shared by every proxy
+	// built with Store "redis"; redisCreds are the tickets of sessions stored there
+	rd         *world.Redis
+	redisCreds []*c07Cred
+	// what the last runCase saw (read by the refresh part) and a hook that runs between the
+	// request and its evaluation (the refresh part learns the tokens the provider issued
+	// during the request there)
+	lastResp   *world.Resp
+	lastUp     *world.UpReq
+	afterServe func()
+	alpha      *c07AlphaFixture
 }
 
 const c07Host = "app.example.com"
@@ -441,6 +463,54 @@ func c07BaseFlags(e *c07Env) []string {
 	return append(baseFlags(e.up.URL()), "--email-domain=*", "--cookie-secure=false", "--cookie-refresh=0",
 		"--htpasswd-file="+e.htfile, "--htpasswd-user-group=htgrp", "--skip-jwt-bearer-tokens=true",
 		"--skip-auth-route=^/bypass", "--skip-auth-preflight=true", "--trusted-ip=10.9.9.9")
+}
+
+// mintStoreCreds logs the five provider users in at `mint` and saves the five crafted sessions through
+// mint's session store; the credentials are the resulting cookies (whole sessions for the cookie
+// store, tickets for Redis). Kinds are "<prefix>-oidc-<user>" and "<prefix>-crafted-<shape>".
+func (e *c07Env) mintStoreCreds(mint *Proxy, prefix string) (out []*c07Cred) {
+	c := e.c
+	str := func(m map[string]any, k string) string { s, _ := m[k].(string); return s }
+	// cookie sessions from real logins
+	for _, u := range []string{"alice", "nogrp", "three", "comma", "nopref"} {
+		b := newBrowser(mint, "http", c07Host)
+		n := len(e.issued)
+		resp, _, err := b.Login(e.idp, u, "/app")
+		if err != nil || resp.Status != 302 || len(e.issued) != n+1 {
+			c.Error("C07 fixture: login of %s failed: %v status %d issued %d", u, err, resp.Status, len(e.issued)-n)
+			continue
+		}
+		tok := e.issued[n]
+		ck := b.Jar.Header("http", c07Host, "/")
+		out = append(out, &c07Cred{Kind: prefix + "-oidc-" + u, Cookie: ck,
+			Cands: []c07Cand{{User: e.idp.Users[u].Sub, AT: str(tok, "access_token"), IDT: str(tok, "id_token"), RT: str(tok, "refresh_token")}}})
+	}
+	// crafted cookie sessions: fields a login at this provider cannot produce
+	crafted := []struct {
+		kind string
+		s    sessionsapi.SessionState
+	}{
+		{"crafted-noemail", sessionsapi.SessionState{User: "u-noemail", Groups: []string{"cg"}, PreferredUsername: "pn", AccessToken: "at-crafted-1", IDToken: "idt.crafted.1", RefreshToken: "rt-crafted-1"}},
+		{"crafted-nouser", sessionsapi.SessionState{Email: "nouser@example.com", Groups: []string{"cg"}, PreferredUsername: "pn2", AccessToken: "at-crafted-2", IDToken: "idt.crafted.2"}},
+		{"crafted-useronly", sessionsapi.SessionState{User: "u-only"}},
+		{"crafted-emptygroupitem", sessionsapi.SessionState{User: "u-eg", Email: "eg@example.com", Groups: []string{"", "g2", ""}, AccessToken: "at-crafted-4"}},
+		{"crafted-notokens", sessionsapi.SessionState{User: "u-nt", Email: "nt@example.com", Groups: []string{"x", "y"}, PreferredUsername: "nt"}},
+	}
+	for _, cs := range crafted {
+		s := cs.s
+		s.CreatedAtNow()
+		rec := httptest.NewRecorder()
+		req := httptest.NewRequest("GET", "http://"+c07Host+"/", nil)
+		if err := verifSessionStore(mint.P).Save(rec, req, &s); err != nil {
+			c.Error("C07 fixture: cannot save crafted session %s: %v", cs.kind, err)
+			continue
+		}
+		jar := world.NewJar()
+		jar.SetCookies("http", c07Host, "/", rec.Header())
+		out = append(out, &c07Cred{Kind: prefix + "-" + cs.kind, Cookie: jar.Header("http", c07Host, "/"),
+			Cands: []c07Cand{{User: s.User, AT: s.AccessToken, IDT: s.IDToken, RT: s.RefreshToken}}})
+	}
+	return out
 }
 
 func c07NewEnv(c *Ctx) *c07Env {
@@ -469,49 +539,10 @@ func c07NewEnv(c *Ctx) *c07Env {
 	e.idp.Users["bearer-noemail"] = &world.User{Sub: "bne-sub", Groups: []string{"b1"}, PreferredUsername: "bne"}
 
 	mint := mustProxy(&ProxyCfg{Flags: c07BaseFlags(e)})
-	str := func(m map[string]any, k string) string { s, _ := m[k].(string); return s }
-	// cookie sessions from real logins
+	e.creds = append(e.creds, e.mintStoreCreds(mint, "cookie")...)
 	var aliceCookie string
-	for _, u := range []string{"alice", "nogrp", "three", "comma", "nopref"} {
-		b := newBrowser(mint, "http", c07Host)
-		n := len(e.issued)
-		resp, _, err := b.Login(e.idp, u, "/app")
-		if err != nil || resp.Status != 302 || len(e.issued) != n+1 {
-			c.Error("C07 fixture: login of %s failed: %v status %d issued %d", u, err, resp.Status, len(e.issued)-n)
-			continue
-		}
-		tok := e.issued[n]
-		ck := b.Jar.Header("http", c07Host, "/")
-		if u == "alice" {
-			aliceCookie = ck
-		}
-		e.creds = append(e.creds, &c07Cred{Kind: "cookie-oidc-" + u, Cookie: ck,
-			Cands: []c07Cand{{User: e.idp.Users[u].Sub, AT: str(tok, "access_token"), IDT: str(tok, "id_token"), RT: str(tok, "refresh_token")}}})
-	}
-	// crafted cookie sessions: fields a login at this provider cannot produce
-	crafted := []struct {
-		kind string
-		s    sessionsapi.SessionState
-	}{
-		{"cookie-crafted-noemail", sessionsapi.SessionState{User: "u-noemail", Groups: []string{"cg"}, PreferredUsername: "pn", AccessToken: "at-crafted-1", IDToken: "idt.crafted.1", RefreshToken: "rt-crafted-1"}},
-		{"cookie-crafted-nouser", sessionsapi.SessionState{Email: "nouser@example.com", Groups: []string{"cg"}, PreferredUsername: "pn2", AccessToken: "at-crafted-2", IDToken: "idt.crafted.2"}},
-		{"cookie-crafted-useronly", sessionsapi.SessionState{User: "u-only"}},
-		{"cookie-crafted-emptygroupitem", sessionsapi.SessionState{User: "u-eg", Email: "eg@example.com", Groups: []string{"", "g2", ""}, AccessToken: "at-crafted-4"}},
-		{"cookie-crafted-notokens", sessionsapi.SessionState{User: "u-nt", Email: "nt@example.com", Groups: []string{"x", "y"}, PreferredUsername: "nt"}},
-	}
-	for _, cs := range crafted {
-		s := cs.s
-		s.CreatedAtNow()
-		rec := httptest.NewRecorder()
-		req := httptest.NewRequest("GET", "http://"+c07Host+"/", nil)
-		if err := verifSessionStore(mint.P).Save(rec, req, &s); err != nil {
-			c.Error("C07 fixture: cannot save crafted session %s: %v", cs.kind, err)
-			continue
-		}
-		jar := world.NewJar()
-		jar.SetCookies("http", c07Host, "/", rec.Header())
-		e.creds = append(e.creds, &c07Cred{Kind: cs.kind, Cookie: jar.Header("http", c07Host, "/"),
-			Cands: []c07Cand{{User: s.User, AT: s.AccessToken, IDT: s.IDToken, RT: s.RefreshToken}}})
+	if cr := e.cred("cookie-oidc-alice"); cr != nil {
+		aliceCookie = cr.Cookie
 	}
 	// Authorization-borne credentials
 	e.creds = append(e.creds, &c07Cred{Kind: "basic-htpasswd", Authz: basicAuth("hugo", "pw1"), Cands: []c07Cand{{User: "hugo"}}})
@@ -543,11 +574,22 @@ func (e *c07Env) cred(kind string) *c07Cred {
 }
 
 func (e *c07Env) build(cfg *c07Config) (*Proxy, error) {
-	if cfg.Legacy != nil {
-		return buildProxy(&ProxyCfg{Flags: append(c07BaseFlags(e), cfg.Legacy.args()...)})
+	var rd *world.Redis
+	if cfg.Store == "redis" {
+		rd = e.redis()
 	}
-	flags := append(c07BaseFlags(e), "--pass-basic-auth=false", "--pass-user-headers=false")
-	return buildProxy(&ProxyCfg{Flags: flags, Mutate: func(o *options.Options) {
+	var extra []string
+	if cfg.Refresh {
+		extra = []string{"--cookie-refresh=1m"} // pflag: the last occurrence of a flag wins
+	}
+	if cfg.Alpha != nil {
+		return e.buildAlpha(cfg, rd, extra)
+	}
+	if cfg.Legacy != nil {
+		return buildProxy(&ProxyCfg{Flags: append(append(c07BaseFlags(e), cfg.Legacy.args()...), extra...), Redis: rd})
+	}
+	flags := append(append(c07BaseFlags(e), "--pass-basic-auth=false", "--pass-user-headers=false"), extra...)
+	return buildProxy(&ProxyCfg{Flags: flags, Redis: rd, Mutate: func(o *options.Options) {
 		o.InjectRequestHeaders = c07ToOptions(cfg.ref.Req)
 		o.InjectResponseHeaders = c07ToOptions(cfg.ref.Resp)
 	}})
@@ -769,6 +811,9 @@ func c07AmbiguityReasons(h c07Hdr, s *c07Sess, bypass bool) []string {
 	if h.Optional {
 		out = append(out, "optional-name")
 	}
+	if h.PreserveOpen {
+		out = append(out, "preserve-differs-between-spellings")
+	}
 	return out
 }
 
@@ -781,7 +826,7 @@ func c07CheckHeader(h c07Hdr, request bool, s *c07Sess, bypass bool, client, obs
 			adm = append(adm, t)
 		}
 	}
-	ambiguous = len(adm) > 1 || h.Optional
+	ambiguous = len(adm) > 1 || h.Optional || (request && h.PreserveOpen)
 	if !request {
 		client = nil
 	}
@@ -838,6 +883,13 @@ func (e *c07Env) runCase(px *Proxy, cfg *c07Config, cr *c07Cred, style string, p
 	e.up.Take()
 	resp := world.Serve(px.H, &world.Req{Method: p.Method, Target: p.Target, Host: c07Host, Headers: hdrs, Remote: p.Remote})
 	log := e.up.Take()
+	e.lastResp, e.lastUp = resp, nil
+	if len(log) > 0 {
+		e.lastUp = log[0]
+	}
+	if e.afterServe != nil {
+		e.afterServe()
+	}
 	base := c07Case{Config: cfg, Cred: cr.Kind, Style: style, Path: p.Name, Session: sess}
 	if resp.Panic != nil {
 		cs := base
@@ -916,6 +968,14 @@ func (e *c07Env) runCase(px *Proxy, cfg *c07Config, cr *c07Cred, style string, p
 			}
 			if len(client) > 0 && h.Preserve {
 				inc("spoofed_preserved_names_checked")
+			}
+			if len(client) > 0 && sess == nil && p.Bypass {
+				// a request that reaches the upstream without a session: strip on / off for this name
+				if h.Preserve {
+					inc("bypass_without_session_spoofed_preserved_names_checked")
+				} else {
+					inc("bypass_without_session_spoofed_nonpreserved_names_checked")
+				}
 			}
 		}
 		if ok {
@@ -1019,6 +1079,87 @@ func c07Report(e *c07Env, px *Proxy, cfg *c07Config, cr *c07Cred, style string, 
 	e.c.confirm(f.Key, f.Msg, size, f.Case, again)
 }
 
+// runConfig runs every credential x style x path case of one configuration (with its per-configuration
+// non-vacuity assertions); false = validation rejected the configuration.
+func (e *c07Env) runConfig(cfg *c07Config, creds []*c07Cred, styles []string) bool {
+	c := e.c
+	px, err := e.build(cfg)
+	if err != nil {
+		c.Inc("configurations_rejected_by_validation")
+		if cfg.rejectWhy == "" {
+			c.Error("C07: configuration %s rejected although the reference table sees no reason: %v", cfg.Name, err)
+		}
+		return false
+	}
+	c.Inc("configurations_built")
+	if cfg.rejectWhy != "" {
+		// accepted although e.g. two headers share a name: not this property's business; the
+		// reference evaluation simply concatenates
+		c.Inc("info_configurations_accepted_despite_" + strings.ReplaceAll(strings.Fields(cfg.rejectWhy)[0], "-", "_"))
+	}
+	if cfg.Legacy != nil {
+		c07CheckConversion(c, cfg, px)
+	}
+	servedBy := map[string]int{}
+	spoofChecked := 0
+	for _, cr := range creds {
+		for _, style := range styles {
+			hdrs := c07ClientHeaders(cr, style)
+			sess, err := e.truth(px, cr, hdrs)
+			if err != nil {
+				c.Error("C07: %s %s/%s: %v", cfg.Name, cr.Kind, style, err)
+				continue
+			}
+			c.Inc("ground_truth_queries")
+			if sess != nil {
+				c.Inc("ground_truth_session:" + cr.Kind)
+			} else {
+				c.Inc("ground_truth_no_session")
+			}
+			for _, p := range c07Paths {
+				before := c.Counters["spoofed_nonpreserved_names_checked"]
+				fails, served := e.runCase(px, cfg, cr, style, p, sess, true)
+				c.Inc("evaluations")
+				spoofChecked += int(c.Counters["spoofed_nonpreserved_names_checked"] - before)
+				if served {
+					cls := p.Name + "/no-session"
+					if sess != nil {
+						cls = p.Name + "/session"
+					}
+					servedBy[cls]++
+					c.Inc("served:" + cls)
+					if len(cfg.ref.Req)+len(cfg.ref.Resp) > 0 {
+						c.Distinct("distinct_nontrivial", cfg.Name+"|"+cr.Kind+"|"+style+"|"+p.Name)
+					}
+					c.Sample(4, c07Case{Config: cfg, Cred: cr.Kind, Style: style, Path: p.Name, Session: sess, Outcome: "held"})
+				} else if sess != nil || p.Bypass {
+					c.Inc("info_expected_served_but_was_not")
+				}
+				for _, f := range fails {
+					c07Report(e, px, cfg, cr, style, p, f)
+				}
+			}
+		}
+	}
+	// non-vacuity, per configuration
+	for _, cls := range []string{"proxied/session", "auth-only/session", "bypass-route/session", "bypass-route/no-session",
+		"bypass-trusted-ip/no-session", "bypass-preflight/no-session", "auth-only-trusted-ip/no-session", "auth-only-trusted-ip/session"} {
+		if servedBy[cls] == 0 {
+			c.Error("C07 vacuous: configuration %s never served a %s request", cfg.Name, cls)
+		}
+	}
+	nonPres := 0
+	for _, h := range cfg.ref.Req {
+		if !h.Preserve {
+			nonPres++
+		}
+	}
+	if nonPres > 0 && spoofChecked == 0 {
+		c.Error("C07 vacuous: configuration %s has %d non-preserved request names but no spoofed one was checked", cfg.Name, nonPres)
+	}
+	return true
+}
+
 func c07Run(c *Ctx) {
 	e := c07NewEnv(c)
 	defer e.up.Close()
@@ -1040,81 +1181,10 @@ func c07Run(c *Ctx) {
 		if c.Expired() {
 			return
 		}
-		px, err := e.build(cfg)
-		if err != nil {
-			c.Inc("configurations_rejected_by_validation")
-			if cfg.rejectWhy == "" {
-				c.Error("C07: configuration %s rejected although the reference table sees no reason: %v", cfg.Name, err)
-			}
-			continue
-		}
-		c.Inc("configurations_built")
-		if cfg.rejectWhy != "" {
-			// accepted although e.g. two headers share a name: not this property's business; the
-			// reference evaluation simply concatenates
-			c.Inc("info_configurations_accepted_despite_" + strings.ReplaceAll(strings.Fields(cfg.rejectWhy)[0], "-", "_"))
-		}
-		if cfg.Legacy != nil {
-			c07CheckConversion(c, cfg, px)
-		}
-		servedBy := map[string]int{}
-		spoofChecked := 0
-		for _, cr := range e.creds {
-			for _, style := range styles {
-				hdrs := c07ClientHeaders(cr, style)
-				sess, err := e.truth(px, cr, hdrs)
-				if err != nil {
-					c.Error("C07: %s %s/%s: %v", cfg.Name, cr.Kind, style, err)
-					continue
-				}
-				c.Inc("ground_truth_queries")
-				if sess != nil {
-					c.Inc("ground_truth_session:" + cr.Kind)
-				} else {
-					c.Inc("ground_truth_no_session")
-				}
-				for _, p := range c07Paths {
-					before := c.Counters["spoofed_nonpreserved_names_checked"]
-					fails, served := e.runCase(px, cfg, cr, style, p, sess, true)
-					c.Inc("evaluations")
-					spoofChecked += int(c.Counters["spoofed_nonpreserved_names_checked"] - before)
-					if served {
-						cls := p.Name + "/no-session"
-						if sess != nil {
-							cls = p.Name + "/session"
-						}
-						servedBy[cls]++
-						c.Inc("served:" + cls)
-						if len(cfg.ref.Req)+len(cfg.ref.Resp) > 0 {
-							c.Distinct("distinct_nontrivial", cfg.Name+"|"+cr.Kind+"|"+style+"|"+p.Name)
-						}
-						c.Sample(4, c07Case{Config: cfg, Cred: cr.Kind, Style: style, Path: p.Name, Session: sess, Outcome: "held"})
-					} else if sess != nil || p.Bypass {
-						c.Inc("info_expected_served_but_was_not")
-					}
-					for _, f := range fails {
-						c07Report(e, px, cfg, cr, style, p, f)
-					}
-				}
-			}
-		}
-		// non-vacuity, per configuration
-		for _, cls := range []string{"proxied/session", "auth-only/session", "bypass-route/session", "bypass-route/no-session",
-			"bypass-trusted-ip/no-session", "bypass-preflight/no-session", "auth-only-trusted-ip/no-session", "auth-only-trusted-ip/session"} {
-			if servedBy[cls] == 0 {
-				c.Error("C07 vacuous: configuration %s never served a %s request", cfg.Name, cls)
-			}
-		}
-		nonPres := 0
-		for _, h := range cfg.ref.Req {
-			if !h.Preserve {
-				nonPres++
-			}
-		}
-		if nonPres > 0 && spoofChecked == 0 {
-			c.Error("C07 vacuous: configuration %s has %d non-preserved request names but no spoofed one was checked", cfg.Name, nonPres)
-		}
+		e.runConfig(cfg, e.creds, styles)
 	}
+	// Redis session store, alpha-config YAML header lists, refreshed sessions (c07_alpha_test.go)
+	c07Extended(c, e, cfgs, styles)
 	for _, cr := range e.creds {
 		if cr.Kind != "none" && c.Counters["configurations_built"] > 0 && c.Counters["ground_truth_session:"+cr.Kind] == 0 {
 			c.Error("C07 vacuous: credential %s never authenticated", cr.Kind)
@@ -1129,16 +1199,20 @@ func init() {
 	register(&checkDef{
 		id:    "C07",
 		level: "exploration",
-		rule:  "full product header configurations (all combinations of the legacy header flags x basic-auth-password on/off [thorough: x set-authorization-header] that pass validation + structured lists: 3 name spellings x 3 preserve patterns x 11 value shapes) x credentials (5 login sessions, 5 crafted cookie sessions, htpasswd, 2 bearer, cookie+bearer conflict, none) x 8 client header styles (every configured name spoofed canonical/lower/upper/mixed case, repeated, comma-joined, listed in Connection, none) [thorough: + credential-last repetition, empty values, comma-joined without space] x 6 paths (proxied, auth-only, bypass by route / trusted IP / preflight, auth-only from trusted IP); reference: header specification evaluated over the session reported by /oauth2/userinfo for the same headers and the provider's token issue log; non-trivial = served case (upstream hit or 202) under a configuration with at least one configured name",
+		rule:  "full product header configurations (all combinations of the legacy header flags x basic-auth-password on/off [thorough: x set-authorization-header] that pass validation + structured lists: 3 name spellings x 3 preserve patterns x 11 value shapes) x credentials (5 login sessions, 5 crafted cookie sessions, htpasswd, 2 bearer, cookie+bearer conflict, none) x 8 client header styles (every configured name spoofed canonical/lower/upper/mixed case, repeated, comma-joined, listed in Connection, none) [thorough: + credential-last repetition, empty values, comma-joined without space] x 6 paths (proxied, auth-only, bypass by route / trusted IP / preflight, auth-only from trusted IP); reference: header specification evaluated over the session reported by /oauth2/userinfo for the same headers and the provider's token issue log; non-trivial = served case (upstream hit or 202) under a configuration with at least one configured name. Further factors (c07_alpha_test.go): (1) session store: the structured lists and the legacy combinations [quick: those with a password and without prefer-email-to-user] built again with the Redis store x 10 Redis-stored sessions + conflict + none x styles x paths; (2) header lists written as an alpha-config YAML file and loaded through --alpha-config: value shape of entry A x value shape of entry B (user, multi-valued groups, absent claim, basicAuthPassword, static secret, several values [thorough: + prefixed e-mail, no values]) x relation of the two names (distinct, the same name twice = must be rejected, spellings differing only in letter case [thorough: + both non-canonical]) x preserveRequestValue of A x of B x secret source (value, fromFile, fromEnv [thorough: + ${VAR} substitution]; only for lists with a secret) + fixed tail (three tokens, Authorization), request and response lists, x 3 [thorough: 5] credentials x styles x 6 paths (incl. the three bypass kinds without a session, preserveRequestValue standing for skip-auth-strip-headers) [thorough: x both stores]; (3) refresh histories with --cookie-refresh=1m: token-bearing configurations x {Redis, cookie} x 2 users x styles x request that triggers the refresh (proxied, auth-only [thorough: + bypass by route, preflight]) followed by one request on each of the 6 paths: tokens must be those of the refresh grant in the provider's issue log, no header may contain a token of the previous generation",
 		assumptions: []string{
 			"header values are compared as comma-separated lists (several field lines = one comma-joined line), order ignored, empty items ignored",
 			"admissible readings (counted as ambiguous when they differ): prefer-email-to-user with or without fall-back to the user name, and with or without effect on set-basic-auth; X-Forwarded-Email under prefer-email-to-user and X-Forwarded-Groups under pass-basic-auth alone configured or not; a bearer session's access token is the JWT or nothing; static secret values with or without a session; a bypassed request carrying a valid credential has a session or not",
 			"for names the operator preserves the upstream may see the injected values plus any subset of what the client sent, nothing else",
 			"header names differing from a configured name by more than letter case (X_Forwarded_User) are outside the statement; their arrival is counted as info only",
 			"cookies minted by one proxy instance are presented to the others (same cookie secret and name)",
+			"list entries whose names differ only in letter case configure one header (RFC 9110 field names are case-insensitive): it must carry the values of all of them; if their preserveRequestValue settings differ both treatments of client values are admissible (counted as ambiguous); the same name twice must be rejected by validation or, if accepted, is read the same way",
+			"the request that makes the proxy refresh a session is already a request of the refreshed session: it carries the tokens issued by that refresh grant",
+			"the part of the alpha-config file that is not under test (upstreams, server, provider) is the rendering of the structures --convert-config-to-alpha produces for the flags of the main part; the header lists are written as text by the harness",
 		},
 		shards: func(tier string) int { return 16 },
 		run:    c07Run,
+		post:   c07Post,
 		replay: func(c *Ctx, raw json.RawMessage) string {
 			var cr0 c07ConcReplay
 			if json.Unmarshal(raw, &cr0) == nil && cr0.Kind == "concurrent-requests" {
@@ -1146,19 +1220,38 @@ func init() {
 				defer e.up.Close()
 				return c07ConcReplayOne(c, e, cr0)
 			}
+			var rf c07RefreshCase
+			if json.Unmarshal(raw, &rf) == nil && rf.Kind == "refresh" {
+				e := c07NewEnv(c)
+				defer e.up.Close()
+				return c07RefreshReplay(c, e, rf)
+			}
 			var cs c07Case
 			if err := json.Unmarshal(raw, &cs); err != nil || cs.Config == nil {
 				return "not a C07 case"
 			}
 			e := c07NewEnv(c)
 			defer e.up.Close()
-			var cfg *c07Config
-			for _, k := range c07Configs(false) {
-				if k.Name == cs.Config.Name {
-					cfg = k
+			defer func() {
+				if e.rd != nil {
+					e.rd.Close()
 				}
+			}()
+			cfg := c07ResolveConfig(cs.Config)
+			if cfg != nil && cfg.Alpha != nil && cs.Cred == "" {
+				// the loaded-list comparison of the alpha part
+				px, err := e.build(cfg)
+				if err != nil {
+					return "configuration rejected: " + err.Error()
+				}
+				c07AlphaLoaded(c, cfg, px)
+				return fmt.Sprintf("loaded lists compared, differences=%d", len(c.Violations))
 			}
 			cr := e.cred(cs.Cred)
+			if cr == nil && strings.HasPrefix(cs.Cred, "redis-") {
+				e.redisCredentials()
+				cr = e.redisCred(cs.Cred)
+			}
 			var path *c07Path
 			for i := range c07Paths {
 				if c07Paths[i].Name == cs.Path {
